@@ -96,7 +96,10 @@ def run_search(selectors, seed, budget, timeout=900):
     binp, log = build()
     if not binp:
         return {"error": log}
-    p = subprocess.run([binp, "search", str(seed), str(budget)] + selectors, capture_output=True, text=True, timeout=timeout)
+    try:
+        p = subprocess.run([binp, "search", str(seed), str(budget)] + selectors, capture_output=True, text=True, timeout=timeout)
+    except subprocess.TimeoutExpired:
+        return {"error": "native search did not finish within %d s" % timeout}
     res = {}
     for ln in p.stdout.splitlines():
         f = ln.split("\t")
